@@ -555,7 +555,15 @@ fn addrs_strategy() -> impl Strategy<Value = Vec<String>> {
 }
 
 fn unknown_strategy() -> impl Strategy<Value = Vec<(u8, u8, Vec<u8>)>> {
-    proptest::collection::vec((0u8..7, any::<u8>(), proptest::collection::vec(any::<u8>(), 0..40)), 0..4)
+    // bodies of every size class: a skip routine that works in chunks or through a bounded scratch buffer only
+    // shows its seams at and beyond its chunk size
+    let body = prop_oneof![
+        6 => proptest::collection::vec(any::<u8>(), 0..40),
+        2 => (prop_oneof![Just(127usize), Just(255), Just(256), Just(511), Just(1023), Just(4095)], 0usize..3, any::<u8>(), any::<u8>())
+            .prop_map(|(base, d, a, b)| (0..base + d).map(|i| if i % 2 == 0 { a } else { b.wrapping_add(i as u8) }).collect::<Vec<u8>>()),
+        1 => (256usize..6000, any::<u8>()).prop_map(|(n, a)| (0..n).map(|i| a.wrapping_mul(i as u8 | 1)).collect::<Vec<u8>>()),
+    ];
+    proptest::collection::vec((0u8..7, any::<u8>(), body), 0..4)
 }
 
 pub fn nodeinfo_strategy() -> impl Strategy<Value = NiDesc> {
@@ -655,6 +663,34 @@ pub fn run(ctx: &Ctx) {
     });
     ctx.subspace("address counts 0..=9 IPv4 x 0..=9 IPv6, with and without node id, own list and peer entry", 200, true);
 
+    // (1b') one unknown part of every size class at every position, three fill patterns (incl. bytes that look like parts)
+    let sizes: Vec<usize> = vec![0, 1, 2, 3, 63, 64, 65, 127, 128, 129, 255, 256, 257, 258, 300, 511, 512, 513, 1000, 1023, 1024, 1025, 2047, 2048, 2049, 4095, 4096, 4097, 8192, 16384, 20000];
+    let ns = sizes.len() as u64;
+    ctx.par_range(ns * 7 * 3, |_, i| {
+        let size = sizes[(i % ns) as usize];
+        let pos = ((i / ns) % 7) as u8;
+        let fill = i / ns / 7;
+        let body: Vec<u8> = (0..size)
+            .map(|k| match fill {
+                0 => 0u8,
+                1 => (k * 31 + 7) as u8,
+                // looks like a sequence of well-formed parts: tag 1..5, length 1, one byte
+                _ => [1u8 + (k / 4 % 5) as u8, 0, 1, 0x55][k % 4],
+            })
+            .collect();
+        let d = NiDesc {
+            node_id: [3; 16],
+            peers: vec![(Some([9; 16]), vec!["10.0.0.1:3210".into()])],
+            claims: vec![(vec![10, 0, 0, 0], 8), (vec![2, 0, 0, 0, 0, 1], 48)],
+            peer_timeout: Some(300),
+            addrs: vec!["192.168.1.1:3210".into(), "[2001:db8::1]:3210".into()],
+            unknown: vec![(pos, 40 + fill as u8, body)],
+        };
+        let v = check_nodeinfo(ctx, &d);
+        ctx.report(v);
+    });
+    ctx.subspace("one unknown part of 31 sizes (0..20000 bytes) x 7 positions x 3 fill patterns in a node-information message", ns * 7 * 3, true);
+
     // (1c) claims of every address length x every prefix
     ctx.par_range(17 * 256, |_, i| {
         let (len, prefix) = ((i / 256) as usize, (i % 256) as u8);
@@ -680,6 +716,20 @@ pub fn run(ctx: &Ctx) {
     });
     ctx.subspace("proptest handshake message round trip / reference differential / unknown parts", n2 as u64, false);
 
+    // (2b) one unknown part of every size class at every position of a handshake message
+    let isizes: Vec<usize> = vec![0, 1, 2, 63, 64, 65, 127, 128, 129, 255, 256, 257, 300, 511, 512, 513, 1000, 1023, 1024, 1025, 4096, 20000];
+    let nis = isizes.len() as u64;
+    ctx.par_range(nis * 7 * 3, |_, i| {
+        let size = isizes[(i % nis) as usize];
+        let pos = ((i / nis) % 7) as u8;
+        let stage = 1 + (i / nis / 7) as u8;
+        let body: Vec<u8> = (0..size).map(|k| [1u8 + (k / 4 % 5) as u8, 0, 1, 0x55][k % 4]).collect();
+        let d = InitDesc { stage, hash: [3; 20], ecdh: vec![5; 32], algos: vec![(0, 0), (1, 600f32.to_bits()), (3, 400f32.to_bits())], payload: vec![8; 40], seed: [4; 32], unknown: vec![(pos, 77, body)] };
+        let v = check_init(ctx, &d);
+        ctx.report(v);
+    });
+    ctx.subspace("one unknown part of 22 sizes (0..20000 bytes) x 7 positions x 3 stages in a handshake message", nis * 7 * 3, true);
+
     // (3) rotation messages
     let n3: u32 = ctx.tier.pick(6_000, 100_000);
     ctx.proptest(
@@ -697,7 +747,8 @@ pub fn run(ctx: &Ctx) {
         // NodeInfo
         let d = Ctx::draw(&mut runner, &nodeinfo_strategy());
         let bytes = ref_encode_nodeinfo(&d, true);
-        for cut in 0..bytes.len() {
+        let nstep = bytes.len() / 1500 + 1;
+        for cut in (0..bytes.len()).step_by(nstep) {
             let v = check_decode_bytes(ctx, "nodeinfo", &bytes[..cut], &[]);
             ctx.report(v);
         }
